@@ -126,8 +126,9 @@ func (eng *Engine) verifyFunction(f *ssa.Function, ct *Contract) (res *FuncResul
 	if ct.hasAssgn && !ct.noframe {
 		eng.frameObligations(fr, fc, ct, exit, env0, name)
 	}
-	// vacuity: the preconditions are satisfiable and some return is reachable
 	ids := eng.topIDs()
+	fc.constWriteObligations(ids)
+	// vacuity: the preconditions are satisfiable and some return is reachable
 	o := fc.oblige(name+"#vacuity.pre", "vacuity", ids, True, True, nil, "preconditions are satisfiable")
 	o.expect = "sat"
 	o.nassump = nreq
